@@ -11,7 +11,7 @@ R-RAISEMSG  the message of each raise in an accessor is built without an operati
 import ast
 from ..model import AnalysisError, src, loc, call_name, dotted, qualname, norm_stmt, is_const, params_of
 from .. import flow
-from . import common, solveprog, translate
+from . import common, solveprog, translate, wrappers
 
 LEVEL = "other"
 EXPLANATION = ("Path rules over the syntax trees of the 6 value/dual accessors, the solve root, both back-ends' solve methods, "
@@ -561,6 +561,7 @@ def run(ctx):
     r_none(ctx)
     solveprog.r_solve_program(ctx, {"none"})
     no = r_options(ctx)
+    wrappers.r_constraint_kinds(ctx)
     ctx.floor("except clauses", ne, 2)
     ctx.floor("accessors", na, 6)
     ctx.floor("string-option dispatches", no, 4)
